@@ -226,7 +226,7 @@ func init() {
 						matches = append(matches, cand{b, bi, caps, amb, zero})
 					}
 				}
-				for _, hm := range []string{"GET", "POST", "DELETE"} {
+				for hi, hm := range []string{"GET", "POST", "DELETE"} {
 					evals++
 					var outs []c06Outcome
 					for _, w2 := range worlds {
@@ -241,6 +241,16 @@ func init() {
 						if err != nil {
 							c.Fail("harness.setup", "path %q: %v", path, err)
 							return
+						}
+						// The request line as the server saw it is not what routing is about: an
+						// absolute-form request line, or a path rewritten by a middleware in front of
+						// the transcoder (http.StripPrefix), leaves RequestURI different from URL.
+						// Every path meets all three forms (one per HTTP method).
+						switch (pi + hi) % 3 {
+						case 1:
+							req.RequestURI = "http://example.test" + path
+						case 2:
+							req.RequestURI = "/mounted/here" + path
 						}
 						rec := drive.NewRecorder()
 						if pi := drive.Serve(w2.tc, rec, rec, req, spec.Body); pi != nil {
